@@ -66,7 +66,7 @@ def generate(tier, rng):
 def corpus_cases():
     for s in [b'-- title\n-- author\nx=1\n', b'\n\n  -- title\n\n-- author\n-- third\nx=1\n', b'--[[t]] x=1 -- not header\n',
               b'// t\n--[[ b\nb2 ]]\n--[[c]]x=1\n', b'x=1\n-- late\n', b'--\n--\n', b'', b'-- only\n',
-              b'-- t\r\n-- b\r\nx=1\r\n', b'--[[a]]--[[b]]--[[c]]x=1\n', b'-- t - -\n--\tb\t\nx = 1 - -2\n']:
+              b'-- t\r\n-- b\r\nx=1\r\n', b'-- my game\n-- by me', b'-- my game', b'--[[a]]', b'-- t\n-- b\n-- c', b'// t\n// b', b'--[[a]]--[[b]]--[[c]]x=1\n', b'-- t - -\n--\tb\t\nx = 1 - -2\n']:
         yield {'kind': 'prog', 'src': lib.hx(s), 'cfg': 'default'}
     yield {'kind': 'cli-luamin', 'src': lib.hx(b'-- title\n-- author\nfoo=1\n'), 'cfg': 'default'}
     yield {'kind': 'cli-build', 'src': lib.hx(b'\n-- title\n\n--[[ author ]] foo=1\n'), 'cfg': 'keep-all'}
